@@ -158,11 +158,18 @@ class NP:
 
     fabs = abs
 
+    @staticmethod
+    def isclose(a, b, rtol=1e-05, atol=1e-08):
+        if isinstance(a, (R, Dual)) or isinstance(b, (R, Dual)):
+            a, b = R.lift(a), R.lift(b)
+            return abs(a - b) <= atol + rtol * abs(b)
+        return _np.isclose(a, b, rtol=rtol, atol=atol)
 
-for _k in ("cos sin tan arccos arcsin arctan arctan2 sqrt cbrt degrees radians deg2rad rad2deg").split():
+
+for _k in ("cos sin tan arccos arcsin arctan arctan2 sqrt cbrt degrees radians deg2rad rad2deg sinh cosh arctanh").split():
     setattr(NP, _k, staticmethod(_method(_k)))
 
-_FUNCS = ("cos sin tan arccos arcsin arctan arctan2 sqrt cbrt degrees radians deg2rad rad2deg").split()
+_FUNCS = ("cos sin tan arccos arcsin arctan arctan2 sqrt cbrt degrees radians deg2rad rad2deg sinh cosh arctanh").split()
 
 
 def load(modname, extra=None):
@@ -176,6 +183,13 @@ def load(modname, extra=None):
         mod.np = npx
     if hasattr(mod, "pi"):
         mod.pi = PI
+    if hasattr(mod, "norm") and callable(getattr(mod, "norm")):
+        mod.norm = npx.linalg.norm
+    if hasattr(mod, "linalg") and getattr(mod, "linalg") is _np.linalg:
+        mod.linalg = npx.linalg
+    for k in ("array", "zeros", "identity", "cross", "dot", "sign"):
+        if getattr(mod, k, None) is getattr(_np, k):
+            setattr(mod, k, getattr(npx, k))
     if extra:
         for k, v in extra.items():
             setattr(mod, k, v)
